@@ -86,8 +86,6 @@ def clauses(s, syms, positions, segs, spans, ms, bs):
     if not real:
         if not (len(segs) == 1 and segs[0].empty):
             bad.append('single-empty-segment')
-        elif list(segs[0].allPeakPositions) != list(positions) and positions:
-            bad.append('allPeakPositions')
         return bad
     if any(x is None for x in spans):
         bad.append('empty-among-nonempty')
@@ -123,8 +121,6 @@ def clauses(s, syms, positions, segs, spans, ms, bs):
             if run > tot:
                 bad.append('right-extendable')
                 break
-        if list(sg.allPeakPositions) != list(positions):
-            bad.append('allPeakPositions')
     return bad
 
 
